@@ -6,6 +6,7 @@
        under another error seed the body changes whenever the replayed errors differ on the torus (modulo 2^((limb+1) b)); under another mask seed the mask
        changes whenever the digits of the two streams differ.
    Standard gadget objects (6004, 6005): the same mask flags, and for EVERY cell `error_is_full`:
+       (flag 5: the masks of all cells of all entries of the object are pairwise distinct -- fresh randomness for every cell)
        body_k + sum_i (s_i * a_i)_k  ==  plaintext image + e_k * 2^-(limb+1)b   exactly on the torus,
        plaintext image = m_k * 2^-(L+1)b on column 0, (s_{j-1} * m)_k * 2^-(L+1)b when the plaintext sits on column j >= 1
        (L = (dsize-1) + row*dsize), e = the replayed sampler output: coefficient exactly 1, limb = ceil(nk/b)-1, |e_k| <= eb.
@@ -57,15 +58,19 @@ Definition gadget_oracle (ggsw : bool) (ps : list Z) (vs outs : list (list Z)) :
   let ms := if ggsw then [v vs 0] else chunks n rin (v vs 0) in
   let sk := chunks n rout (v vs 1) in
   let cw := (S rout * size * n)%nat in
+  let clen := (rout * size * n)%nat in
+  let ncells := (dnum * cols)%nat in
+  let entry := if ggsw then (if p ps 9 =? 1 then np ps 15 else O) else (if p ps 9 =? 4 then np ps 15 else O) in
+  let base := (entry * ncells)%nat in
   let f := v outs 1 in
   let slots := flat_map (fun row => map (fun col => (row, col)) (seq 0 cols)) (seq 0 dnum) in
-  if negb (Nat.eqb (length (v outs 0)) (dnum * cols * cw) && Nat.eqb (length f) 5) then 0 else
-  ob ((fl f 0 =? 1) && (fl f 1 =? 1) && (fl f 2 =? 1)
-      && (errs_same_on_torus b nk (v vs 3) (v vs 5) || (fl f 3 =? 0))
-      && (eqlz (digits b (v vs 2)) (digits b (v vs 4)) || (fl f 4 =? 0))
+  if negb (Nat.eqb (length (v outs 0)) (dnum * cols * cw) && Nat.eqb (length f) 6) then 0 else
+  ob ((fl f 0 =? 1) && (fl f 1 =? 1) && (fl f 2 =? 1) && (fl f 5 =? 1)
+      && (errs_same_on_torus b nk (slice (base * n) (ncells * n) (v vs 3)) (slice (base * n) (ncells * n) (v vs 5)) || (fl f 3 =? 0))
+      && (eqlz (digits b (slice (base * clen) (ncells * clen) (v vs 2))) (digits b (slice (base * clen) (ncells * clen) (v vs 4))) || (fl f 4 =? 0))
       && andb_all (map (fun q =>
            let slot := fst q in let row := fst (snd q) in let col := snd (snd q) in
-           let d := if ggsw then ggsw_draw_index rout row col else gglwe_draw_index dnum row col in
+           let d := (base + (if ggsw then ggsw_draw_index rout row col else gglwe_draw_index dnum row col))%nat in
            cell_phase_ok b n size dsize nk eb row (if ggsw then col else O) (if ggsw then v vs 0 else nth col ms []) sk
              (to_cols n size (S rout) (slice (slot * cw) cw (v outs 0))) (slice (d * n) n (v vs 3)))
          (combine (seq 0 (length slots)) slots))).
@@ -87,6 +92,8 @@ Definition oracle_c06 (code : Z) (ps : list Z) (vs outs : list (list Z)) : Z :=
   | 6001 | 6002 => flip_oracle (p ps 2) (p ps 5) vs outs
   | 6004 => gadget_oracle false ps vs outs
   | 6005 => gadget_oracle true ps vs outs
+  | 6006 => (* independent streams: no two cells / entries of a compressed composite object share a seed or a mask *)
+      let f := v outs 1 in ob (Nat.eqb (length f) 2 && (fl f 0 =? 1) && (fl f 1 =? 1))
   | 6020 => stats_oracle (v outs 0)
   | _ => 2
   end.
